@@ -86,7 +86,7 @@ def sizes_2d(L, tier):
     else:
         if L <= 8:
             return [(h, w) for h in range(2, 15) for w in range(2, 15)] + ([(32, 32), (33, 20), (20, 33)] if L in (4, 6) else [])
-        if L <= 20:
+        if L <= 12:
             hs = list(range(2, 2 * L + 5))
             ws = [2, 3]
         else:
